@@ -1,0 +1,11 @@
+//go:build verif
+
+package processors
+
+import processor_verif_probe "lunar/engine/streams/processors/verif-probe"
+
+// Registers the harness-only VerifProbe processor. File name sorts after processors_config.go so
+// this init runs after the registry map has been created.
+func init() {
+	internalProcessorRegistry["VerifProbe"] = processor_verif_probe.NewProcessor
+}
